@@ -82,7 +82,12 @@ def _bin(op, a, c, ty):
             return top_of(ty), True
         lo, hi = (al % cl, al % cl) if (al == ah and cl == ch) else (0, min(ah, ch - 1))
     elif op == "BitAnd":
-        lo, hi = (al & cl, al & cl) if (al == ah and cl == ch) else (0, min(ah, ch))
+        if al == ah and cl == ch:
+            lo, hi = al & cl, al & cl
+        elif cl == ch and (cl & (cl + 1)) == 0 and (al >> cl.bit_length()) == (ah >> cl.bit_length()):
+            lo, hi = al & cl, ah & cl          # low-bit mask of an interval inside one 2^k block: monotone
+        else:
+            lo, hi = 0, min(ah, ch)
     elif op in ("BitOr", "BitXor"):
         if al == ah and cl == ch:
             v = (al | cl) if op == "BitOr" else (al ^ cl)
@@ -121,6 +126,23 @@ def _bin(op, a, c, ty):
     return _fit(lo, hi, ty), ovf
 
 
+LOOP_VISITS = 4      # a block may be entered this often on one path (concrete `for _ in 0..k` loops with k <= 3 are unrolled)
+
+
+def _split16(v):
+    """sub-intervals of a u32 interval per 2^16 block, when it straddles 1..3 block boundaries; else None"""
+    if not is_iv(v):
+        return None
+    lo, hi = v[1], v[2]
+    a, c = lo >> 16, hi >> 16
+    if a == c or c - a > 3:
+        return None
+    out = []
+    for k in range(a, c + 1):
+        out.append(iv(max(lo, k << 16), min(hi, ((k + 1) << 16) - 1)))
+    return out
+
+
 class _Fuel:
     def __init__(self, n):
         self.n = n
@@ -136,20 +158,24 @@ def eval_iv(F, fn, args, depth=6, fuel=None, probes=None, state=None):
         return TOP
     fuel = fuel or _Fuel(4000)
 
-    def run(cur, env, refs, seen):
-        """evaluate from block `cur`; returns joined return value"""
+    def run(cur, env, refs, seen, si0=0):
+        """evaluate from block `cur` (statement si0); returns joined return value"""
+        first = True
         while True:
+            start = si0 if first else 0
+            first = False
             fuel.n -= 1
             if fuel.n < 0:
                 if state is not None:
                     state["incomplete"] = True
                 return TOP
-            seen = dict(seen)
-            seen[cur] = seen.get(cur, 0) + 1
-            if seen[cur] > 2:
-                if state is not None:
-                    state["incomplete"] = True
-                return TOP
+            if not start:
+                seen = dict(seen)
+                seen[cur] = seen.get(cur, 0) + 1
+                if seen[cur] > LOOP_VISITS:
+                    if state is not None:
+                        state["incomplete"] = True
+                    return TOP
 
             def place_val(pl):
                 base_l, base_proj = pl[0], list(pl[1])
@@ -178,6 +204,15 @@ def eval_iv(F, fn, args, depth=6, fuel=None, probes=None, state=None):
                     else:
                         return TOP
                 return v
+
+            def resolve_place(pl):
+                base_l, base_proj = pl[0], list(pl[1])
+                g = 0
+                while base_l in refs and base_l not in env and g < 8:
+                    rl, rp = refs[base_l]
+                    base_l, base_proj = rl, list(rp) + (base_proj[1:] if base_proj and base_proj[0] == "*" else base_proj)
+                    g += 1
+                return base_l, base_proj
 
             def op_val(op):
                 k = FX.op_const(op)
@@ -243,11 +278,15 @@ def eval_iv(F, fn, args, depth=6, fuel=None, probes=None, state=None):
                     return TOP
                 return TOP
 
-            for si, st in enumerate(b.stmts(cur)):
+            stmts_ = b.stmts(cur)
+            for si in range(start, len(stmts_)):
+                st = stmts_[si]
                 if st[0] == "=":
                     l, proj = st[1]
                     if probes is not None and (cur, si) in probes and st[2][0] == "bin":
                         probes[(cur, si)].append((op_val(st[2][2]), op_val(st[2][3])))
+                    if probes is not None and (cur, si) in probes and st[2][0] == "cast":
+                        probes[(cur, si)].append((op_val(st[2][2]),))
                     if st[2][0] in ("ref", "raw") and not proj:
                         refs = dict(refs)
                         refs[l] = (st[2][2][0], st[2][2][1])
@@ -269,6 +308,19 @@ def eval_iv(F, fn, args, depth=6, fuel=None, probes=None, state=None):
                         else:
                             env.pop(l, None)
                     else:
+                        parts = _split16(v) if ty == "u32" else None
+                        if parts:
+                            # value partitioning: a u32 that straddles few 2^16 boundaries is followed per 64Ki block, so that
+                            # `(x >> 16) + (x & 0xffff)` style folds are evaluated relationally
+                            res = None
+                            for pv in parts:
+                                env2 = dict(env)
+                                env2[l] = pv
+                                r = run(cur, env2, refs, seen, si + 1)
+                                if r is None:
+                                    continue
+                                res = join(res, r)
+                            return res
                         env[l] = v
                 elif st[0] == "sd":
                     env = dict(env)
@@ -327,6 +379,19 @@ def eval_iv(F, fn, args, depth=6, fuel=None, probes=None, state=None):
                         r = iv(min(a[1], c[1]), min(a[2], c[2]))
                     elif callee.endswith(("::Ord::max", "core::cmp::max")):
                         r = iv(max(a[1], c[1]), max(a[2], c[2]))
+                if r is None and callee.endswith("IntoIterator>::into_iter") and vals and isinstance(vals[0], Agg) and vals[0].adt == "core::ops::range::Range":
+                    r = vals[0]
+                if r is None and callee.endswith("core::ops::range::Range<A>>::next") and len(t[2]) == 1 and FX.op_place(t[2][0]) is not None:
+                    tl, tp = resolve_place(FX.op_place(t[2][0]))
+                    rg = env.get(tl) if not [x for x in tp if x != "*"] else None
+                    if isinstance(rg, Agg) and rg.adt == "core::ops::range::Range" and all(is_iv(x) and x[1] == x[2] for x in rg.fields):
+                        s0, e0 = rg.fields[0][1], rg.fields[1][1]
+                        env = dict(env)
+                        if s0 < e0:
+                            env[tl] = Agg(rg.adt, rg.variant, rg.idx, [iv(s0 + 1), iv(e0)], rg.names)
+                            r = Agg("core::option::Option", "Some", 1, [iv(s0)], None)
+                        else:
+                            r = Agg("core::option::Option", "None", 0, [], None)
                 if r is None and rty == "usize" and re.search(r"::(len|required_size|size_bytes)$", callee) and not (F.has_body(callee) and kk.get("rk") in ("item", None)):
                     r = iv(0, LEN_MAX)          # ASSUMPTION (object sizes): an unresolved size-like callee returns at most isize::MAX
                 if r is None and callee and F.has_body(callee) and kk.get("rk") in ("item", None):
